@@ -512,6 +512,15 @@ Proof. vm_compute. split; reflexivity. Qed.
    X_statement_output on the records of every generated well-formed statement and compares it with
    the standard output of the binary (drv_c13b.ml, verdict `spec`). *)
 
+(* the relation of the _faithful theorems pins the transaction down: a transaction that books a row
+   (books_b: date, bookings, annotation) under the row's text IS the one the executable form
+   prescribes -- so the transactions of C13_<importer>_faithful / _end_to_end are those of
+   <importer>_statement_output *)
+Theorem C13b_books_determines : forall acct f ls tg text t,
+  books_b acct f ls tg t -> t_desc t = build_desc text -> DTxn t = booking_directive f text ls tg.
+Proof. exact books_b_determines. Qed.
+Print Assumptions C13b_books_determines.
+
 (* revolut2: the header record, then well-formed rows (r2_statement_wf); one transaction per
    booking row in file order, then the assertions of the closing balances (r2s_closings: per day
    and currency with a booking row the Balance of the last such row) ordered by day, then by the
